@@ -33,7 +33,7 @@ impl Monitor for C20 {
         if tier == Tier::Sanitizer {
             vec!["restores_compared"]
         } else {
-            vec!["restores_compared", "pending_full_15", "pending_empty", "pending_partial", "ack_owed_at_snapshot", "fcnt_down_none_at_snapshot", "counter_at_16bit_boundary", "adr_cnt_ge_64", "malformed_rejected", "malformed_accepted_battery_ok", "steps_compared", "restored_over_another_session", "mid_transaction_snapshots"]
+            vec!["restores_compared", "pending_full_15", "pending_empty", "pending_partial", "ack_owed_at_snapshot", "fcnt_down_none_at_snapshot", "counter_at_16bit_boundary", "adr_cnt_ge_64", "malformed_rejected", "malformed_accepted_battery_ok", "steps_compared", "restored_over_another_session", "mid_transaction_snapshots", "positional_restores_compared", "cbor_restores_compared"]
         }
     }
 
@@ -354,6 +354,30 @@ fn history_case(front: Front, reg: Reg, rng: &mut Prng, col: &mut Collector) {
                             &format!("C20|restored-field-differs|positional-format|{}", sc.split('|').next().unwrap_or("")),
                             "the session restored from a positional format is not equal to the original in every field (their Debug forms differ)",
                             ctx("positional-debug", json!({"original": dbg, "restored": got})),
+                        );
+                    }
+                }
+            }
+        }
+        // ---- (1c) ... and through a binary self-describing format (CBOR) -------------------------------
+        let cbor = trap(|| {
+            let mut bytes: Vec<u8> = Vec::new();
+            ciborium::into_writer(&restored, &mut bytes).map_err(|e| format!("write: {}", e))?;
+            let back: lorawan_device::mac::Session = ciborium::from_reader(bytes.as_slice()).map_err(|e| format!("read: {}", e))?;
+            Ok::<_, String>((bytes.len(), back))
+        });
+        match cbor {
+            Err(t) => col.violation(&format!("C20|restore-panics|cbor|{}", short_loc(&t.loc)), "a CBOR round trip of a session panicked", ctx("cbor", json!({"msg": t.msg, "loc": t.loc}))),
+            Ok(Err(e)) => col.violation("C20|restore-fails|cbor", "a session written as CBOR does not read back", ctx("cbor", json!(e))),
+            Ok(Ok((_, r3))) => {
+                col.event("cbor_restores_compared");
+                if let Some(dbg) = &debugs[k] {
+                    let got = format!("{:?}", r3);
+                    if &got != dbg {
+                        col.violation(
+                            &format!("C20|restored-field-differs|cbor|{}", sc.split('|').next().unwrap_or("")),
+                            "the session restored from CBOR is not equal to the original in every field (their Debug forms differ)",
+                            ctx("cbor-debug", json!({"original": dbg, "restored": got})),
                         );
                     }
                 }
